@@ -8,7 +8,7 @@ VARIABLES stim, done
 vars == <<last, stim, done>>
 
 V(k) == Cat[((k - 1) % Len(Cat)) + 1]
-ShapesF == {<<3>>, <<1>>, <<2, 3>>, <<3, 1>>, <<1, 1>>, <<2, 3, 2>>, <<1, 2, 3>>, <<2, 1, 2, 2>>}
+ShapesF == {<<3>>, <<1>>, <<2, 3>>, <<3, 1>>, <<1, 1>>, <<2, 3, 2>>, <<1, 2, 3>>, <<2, 1, 2, 2>>, <<2, 3, 2, 2>>, <<2, 2, 1, 2, 2>>}
 
 DenseOf(s, off) == [kind |-> "dense", shape |-> s, v |-> [k \in 1..Prod(s) |-> V(k + off)]]
 \* sparse: pattern of cells, stored order pi
